@@ -127,7 +127,9 @@ def project(m: Model, sp, v, annotated):
         if ili == 'in':
             o['ili_definition'] = [xtext(d, v), meta_of(d)] if d else None
         else:
-            o['ili_definition'] = Any()   # the shared ILI inventory is set aside
+            # the shared ILI inventory is set aside: a definition the document gives for an
+            # existing ILI may or may not come back - but the export must not invent one
+            o['ili_definition'] = Any() if d else None
         if ge11:
             o['lexfile'] = ss.get('lexfile')
             declared = list(ss.get('members', []) or [])
